@@ -98,7 +98,7 @@ def generate(seed, tier="quick"):
     for cls in chans:
         prep.append({"op": "insert", "view": B() if o.random() < 0.5 else [], "cls": cls, "name": None})
     for _ in range(o.randint(2, 8)):
-        key = o.choice(["radius", "length", "axial_resistivity", "capacitance", "v"] if shape["kind"] == "cell" else ["axial_resistivity", "capacitance", "v"])
+        key = o.choice(["radius", "length", "axial_resistivity", "capacitance", "v"] if shape["kind"] == "cell" else ["axial_resistivity", "capacitance", "v", "length"])
         prep.append({"op": "set", "view": B(), "key": key, "val": {"seed": o.randrange(1 << 30)}})
     for cls in chans:
         d = mech.chan_desc(cls)
@@ -341,6 +341,8 @@ def execute(program):
                     w.bump("oracle_swc_direct")
                     for col in ("radius", "length"):
                         g_, e_ = got[col].tolist(), exp[col].tolist()
+                        if col == "length" and abs(sum(e_) - branch_total[b]) > 1e-9 * max(1.0, branch_total[b]):
+                            continue  # the branch was given another length after reading: the total set before must be kept (RefModule), not the file's
                         if len(g_) != len(e_) or not all(feq(x, y, 1e-12) for x, y in zip(g_, e_)):
                             w.violate("setncomp_equals_direct", f"branch {b} after set_ncomp({c['n']}): {col} {g_} but read_swc(ncomp={c['n']}) gives {e_}", i)
                             break
